@@ -13,6 +13,23 @@ SOURCE_CONSTANTS = {
     'Scales.Heap.Penalty': ('from scales.loadbalancer.heap import HeapBalancerSink as H', 'H.Penalty'),
     'Scales.Heap.chOpen': ('from scales.constants import ChannelState', 'ChannelState.Open'),
 }
+SOURCE_SITES = [
+    dict(name='genNodeLt', file='scales/loadbalancer/heap.py', func='HeapBalancerSink.Node.__lt__', kind='return-bool',
+         varmap={'self.load': 'sl', 'self.index': 'si', 'other.load': 'ol', 'other.index': 'oi'},
+         params=['sl', 'si', 'ol', 'oi'],
+         obligation='theorem genNodeLt_eq (a b : Scales.Heap.Node) : a.lt b = genNodeLt a.load a.index b.load b.index := by\n'
+                    '  unfold Scales.Heap.Node.lt genNodeLt; by_cases h1 : a.load > b.load <;> by_cases h2 : a.load < b.load <;> simp [h1, h2]'),
+    dict(name='genPutLoad', file='scales/loadbalancer/heap.py', func='HeapBalancerSink._HeapBalancerSink__Put'.replace('_HeapBalancerSink', ''), kind='after',
+         marker=('n.load -= 1', 'if n.index < 0'), var='n.load',
+         varmap={'n.load': 'load', 'self.Idle': 'Scales.Heap.Idle'}, params=['load'],
+         obligation='theorem genPutLoad_eq (load : Int) : genPutLoad load = (if load - 1 < Scales.Heap.Idle then Scales.Heap.Idle else load - 1) := by\n'
+                    '  unfold genPutLoad; rfl'),
+    dict(name='genCloseNow', file='scales/loadbalancer/heap.py', func='HeapBalancerSink._RemoveSink', kind='cond',
+         marker='node.load == self.Idle',
+         varmap={'node.load': 'load', 'self.Idle': 'Scales.Heap.Idle'}, params=['load'],
+         obligation='theorem genCloseNow_eq (load : Int) : genCloseNow load = decide (load = Scales.Heap.Idle ∨ load ≥ 0) := by\n'
+                    '  unfold genCloseNow; rfl'),
+]
 ASSUMPTIONS = ['channel states change only between balancer calls (gevent is cooperative)',
                'fewer than 2^31-1 dispatches in the history (theorem hypothesis getCount ops < 2147483647, part of the reported wf)']
 
